@@ -84,6 +84,45 @@ theorem response_literals_used :
            [0x43, 0x6F, 0x6E, 0x6E, 0x65, 0x63, 0x74, 0x69, 0x6F, 0x6E, 0x3A, 0x20, 0x6B, 0x65, 0x65, 0x70, 0x2D, 0x61, 0x6C, 0x69, 0x76, 0x65],
            [0x69, 0x64, 0x65, 0x6E, 0x74, 0x69, 0x74, 0x79]], l ∈ r.pieces := by decide
 
+/-! ### C05 — the response writer itself, translated statement by statement (tools/extract.py: `translate_writer`)
+
+`Extracted.responseWriter` is the function `Response → List (List UInt8)` obtained from the Rust source of
+`StatusLine::write_all`, `ResponseHeaders::{write_allow_header, write_deprecation_header, write_all}` and
+`Response::{write_body, write_all}`: one list element per `buf.write_all(…)` call, `if … { return Ok(()) }` guards,
+`if let Some(x) = self.…`, the `for (idx, method) in self.allow.iter().enumerate()` loop. The theorem says that for
+EVERY response it yields exactly the pieces of the hand-written model — so C05's theorems (layout, length rule,
+round trip, sink independence) are about what response.rs says now. -/
+
+theorem allow_loop (n : Nat) : ∀ (l : List Method) (i : Nat), n = i + l.length →
+    Extracted.forEnumFrom (fun idx (method : Method) =>
+      ([method.raw] ++ ((if decide (idx < n - 1) then ([[0x2C, 0x20]] ++ []) else []) ++ []))) i l = allowPieces l := by
+  intro l
+  induction l with
+  | nil => intro i _; rfl
+  | cons m ms ih =>
+    intro i hn
+    cases ms with
+    | nil =>
+      have : ¬ (i < n - 1) := by simp at hn; omega
+      simp [Extracted.forEnumFrom, allowPieces, this]
+    | cons m' ms' =>
+      have h1 : i < n - 1 := by simp at hn; omega
+      have := ih (i + 1) (by simp at hn ⊢; omega)
+      simp only [Extracted.forEnumFrom] at this ⊢
+      rw [this]
+      simp [allowPieces, h1]
+
+theorem response_writer :
+    Extracted.responseWriter = none ∨
+    ∃ f, Extracted.responseWriter = some f ∧ ∀ r : Response, f r = r.pieces := by
+  right
+  refine ⟨_, rfl, ?_⟩
+  intro r
+  simp only [Extracted.forEnum, allow_loop r.allow.length r.allow 0 (by simp)]
+  unfold Response.pieces
+  cases r.contentLength <;> cases r.body <;> cases r.deprecation <;> cases r.acceptEncoding <;>
+    simp [Header.raw]
+
 /-! Non-vacuity is reported per run: `check` records which items the translator found (`extracted` in the evidence);
     on the unchanged tree all of them are. -/
 
